@@ -375,6 +375,20 @@ func cmdCheck(args []string) int {
 				}
 			}
 		}
+		if strings.HasSuffix(v.Obligation, "#translate") {
+			// the contract no longer fits the function (e.g. it names a call the function does not make any more):
+			// look for a failing input of the function among the inputs of its adapter
+			fnKey := strings.TrimSuffix(v.Obligation, "#translate")
+			if a := findAdapter(reg, fnKey); a != nil && hasProp(a.Properties, *prop) {
+				res := parseAdapter(runAdapter(a, wd), fnKey, "")
+				res.Adapter = a.File + ":" + a.Test
+				res.Bound = a.Bound
+				rec["replay"] = res
+				if res.Failed {
+					v.FoundInput = true
+				}
+			}
+		}
 		data, _ := json.MarshalIndent(rec, "", " ")
 		os.WriteFile(path, data, 0o644)
 		v.ReplayPath = path
